@@ -303,6 +303,11 @@ printf("debug> #if eval_operation() @paren  n=%d\n", n);
           *num = n;
           return 0;
         }
+          else
+        {
+          print_error_unexp(asm_context, token);
+          return -1;
+        }
       }
         else
       if (token_type == TOKEN_STRING)
@@ -337,6 +342,12 @@ printf("debug> #if: parse_defined()=%d\n", n);
       if (token_type == TOKEN_NUMBER)
       {
         n = atoi(token);
+      }
+        else
+      {
+        // Quoted strings, floats: not an operand of a condition.
+        print_error_unexp(asm_context, token);
+        return -1;
       }
 
       if (is_not == 1)
